@@ -148,7 +148,7 @@ func init() {
 			return s
 		},
 		Run:  c20Run,
-		Rule: "truncate: every string of length <=4 (5 thorough) over {a, é, 世, U+0301, \\xff, < > & ' \" = \\n \\\\ U+2028} x size in [-2,9] ∪ {50,70} x 6 trails (incl. empty, multi-byte, longer than size), and patterned strings (a^n, é^n, (a é 世 \\xff)^n) of every length 0..64 x size in [-2,70] x 6 trails; laws: unchanged if <= size characters, else byte-prefix-on-a-character-boundary + trail with at most max(size, |trail|) characters, valid UTF-8 preserved; default size 50 / trail '...'. htmlEscape / jsEscape / raw over every string of length <=4 (5) of the same alphabet (direct call and through a template): no raw specials, quotes and line breaks escaped, raw byte-identical. toJSON over a recursive value generator (incl. template.HTML strings such as the result of raw()) to depth 2 (3) and every top-level string of length <=3 over {a, \\n, \\t, \\x01, \", \\\\, <, é, U+2028, DEL, ', /}: valid JSON, decodes back to v (numbers as float64), no raw < > &, template result identical to the direct call; every ordered pair of a reduced value list (plus 70..200-byte strings): a result held while toJSON is called again still is the JSON of its own argument (directly and through let). Non-trivial: strings containing a multi-byte/invalid/special character or a truncation that actually cuts.",
+		Rule: "truncate: every string of length <=4 (5 thorough) over {a, é, 世, U+0301, \\xff, < > & ' \" = \\n \\\\ U+2028} x size in [-2,9] ∪ {50,70} x 6 trails (incl. empty, multi-byte, longer than size), and patterned strings (a^n, é^n, (a é 世 \\xff)^n) of every length 0..64 x size in [-2,70] x 6 trails; laws: unchanged if <= size characters, else byte-prefix-on-a-character-boundary + trail with at most max(size, |trail|) characters, valid UTF-8 preserved; default size 50 / trail '...'. htmlEscape / jsEscape / raw over every string of length <=4 (5) of the same alphabet (direct call and through a template): no raw specials, quotes and line breaks escaped, raw byte-identical. toJSON over a recursive value generator (incl. template.HTML strings such as the result of raw()) to depth 2 (3) and every top-level string of length <=3 over {a, \\n, \\t, \\x01, \", \\\\, <, é, U+2028, DEL, ', /}: valid JSON, decodes back to v (numbers as float64), no raw < > &, template result identical to the direct call; every ordered pair of a reduced value list (plus 70..200-byte strings): a map / slice / pointer modified in place between two calls is encoded as it is now; a result held while toJSON is called again still is the JSON of its own argument (directly and through let). Non-trivial: strings containing a multi-byte/invalid/special character or a truncation that actually cuts.",
 		Bound: func(th bool) string {
 			if th {
 				return "strings of length <=5 over a 14-symbol alphabet; patterned length 0..64; JSON depth 3"
@@ -293,6 +293,39 @@ func c20Run(t *engine.T, shard string) {
 				return "json-ok", nil
 			})
 		}
+		// toJSON encodes the value as it is now: a value changed in place between two calls
+		t.Case("toJSON after in-place modification", true, func() (string, *engine.Fail) {
+			m := map[string]interface{}{"a": 1, "l": []interface{}{1}}
+			sl := []int{1, 2}
+			type box struct{ N int }
+			pb := &box{1}
+			steps := []func(){func() { m["a"] = 2 }, func() { m["l"].([]interface{})[0] = 9 }, func() { sl[0] = 7 }, func() { pb.N = 5 }, func() { m["new"] = "x"; delete(m, "a") }}
+			for si, step := range steps {
+				for _, v := range []interface{}{m, sl, pb} {
+					if _, err := encoders.ToJSON(v); err != nil {
+						return "", engine.Failf("toJSON", "error %v", err)
+					}
+				}
+				step()
+				for _, v := range []interface{}{m, sl, pb} {
+					got, _ := encoders.ToJSON(v)
+					want, _ := json.Marshal(v)
+					var g, w interface{}
+					if json.Unmarshal([]byte(got), &g) != nil || json.Unmarshal(want, &w) != nil || !reflect.DeepEqual(g, w) {
+						return "", engine.Failf("toJSON", "after modification %d toJSON(%#v) gives %q, the value now encodes to %q", si, v, got, want)
+					}
+				}
+			}
+			ctx := plush.NewContext()
+			mm := map[string]interface{}{"a": 1}
+			ctx.Set("m", mm)
+			out, err := Render(`<%= toJSON(m) %><% m["a"] = 2 %><%= toJSON(m) %><% m["b"] = [1] %><%= toJSON(m) %>`, ctx)
+			want := `{"a":1}{"a":2}{"a":2,"b":[1]}`
+			if err != nil || out != want {
+				return "", engine.Failf("toJSON", "template: expected %q, got %q / %v", want, out, err)
+			}
+			return "json-held", nil
+		})
 		// results are values: an earlier result is still the JSON of its own argument after later calls
 		// (every ordered pair of a reduced value list, directly and through let bindings in a template)
 		var pool []interface{}
